@@ -525,8 +525,9 @@ def check_c07(pid, tier, replay):
         hs = []
         for i in range(n):
             song = gen_seq.random_song(rng, maxev=10 if tier == "quick" else 24,
-                                       ntracks=None if tier == "quick" else rng.choice([1, 2, 3, 4, 6, 8]), tempo_rich=rng.random() < 0.3)
-            hs.append(gen_seq.play_history(rng, song, rng.choice(["plain", "plain", "gating"])))
+                                       ntracks=None if tier == "quick" else rng.choice([1, 2, 3, 4, 6, 8]), tempo_rich=rng.random() < 0.3,
+                                       ports=i % 4 == 3)
+            hs.append(gen_seq.play_history(rng, song, "gating" if i % 4 == 3 else rng.choice(["plain", "plain", "gating"])))
         # audio-driven playback (short songs: rendering is real)
         for i in range(40 if tier == "quick" else 400):
             song = gen_seq.random_song(rng, maxev=6, ntracks=rng.choice([1, 2]))
